@@ -280,4 +280,161 @@ theorem toDT_wf (t : Tok) (d : DT) (hneg : ∀ n, t = .count n → 0 ≤ n) (h :
     | ok r => rw [hm] at h; cases h; exact (mkDtype_ok .bool 1 r (by omega) hm).2
   | var v => simp only [Tok.toDT] at h; cases h; trivial
 
+/-- The main fact about a single read. -/
+theorem readTok_ok (s : Stream) (t : Tok) (v : Val) (np : Int) (hi : Inv s) (h : readTok s t = .ok (v, np)) :
+    ∃ k : Nat, np = s.pos + k ∧ s.pos + k ≤ s.len
+      ∧ specDecode t ((s.bits.drop s.pos.toNat).take k) = .ok v
+      ∧ (∀ n, t.need (s.len - s.pos) = some n → n = k) := by
+  obtain ⟨h0, h1⟩ := hi
+  cases t with
+  | count n =>
+    simp only [readTok] at h
+    split at h; · cases h
+    split at h; · cases h
+    rename_i hn hr
+    cases h
+    unfold Stream.len at *
+    refine ⟨n.toNat, by omega, by omega, ?_, ?_⟩
+    · simp only [specDecode]
+      rw [pySlice_eq' s.bits s.pos (s.pos + n) h0 h1 (by omega)]
+      rw [show (s.pos + n - s.pos).toNat = n.toNat by omega]
+    · intro m hm; simp only [Tok.need] at hm; cases hm; omega
+  | fixed k n =>
+    simp only [readTok, Tok.toDT] at h
+    cases hm : mkDtype k n with
+    | error e => rw [hm] at h; cases h
+    | ok r =>
+      rw [hm] at h
+      simp only [Except.map, resolve] at h
+      obtain ⟨hr, hw⟩ := mkDtype_ok k n r (by omega) hm
+      split at h; · cases h
+      rename_i v' np' hrd
+      split at h; · cases h
+      cases h
+      obtain ⟨kk, hk1, hk2, hk3, hk4⟩ := readRDT_ok s.bits s.pos r v np h0 h1 hw hrd
+      refine ⟨kk, hk1, hk2, ?_, ?_⟩
+      · subst hr; exact hk3
+      · intro m hm'; simp only [Tok.need] at hm'; cases hm'; exact hk4 k _ hr
+  | stretchy k =>
+    by_cases hb : k = .bool
+    · subst hb
+      simp only [readTok, Tok.toDT] at h
+      cases hm : mkDtype .bool 1 with
+      | error e => rw [hm] at h; cases h
+      | ok r =>
+        rw [hm] at h
+        simp only [Except.map, resolve] at h
+        obtain ⟨hr, hw⟩ := mkDtype_ok .bool 1 r (by omega) hm
+        split at h; · cases h
+        rename_i v' np' hrd
+        split at h; · cases h
+        cases h
+        obtain ⟨kk, hk1, hk2, hk3, hk4⟩ := readRDT_ok s.bits s.pos r v np h0 h1 hw hrd
+        refine ⟨kk, hk1, hk2, ?_, ?_⟩
+        · subst hr; exact hk3
+        · intro m hm'; simp only [Tok.need] at hm'; cases hm'
+          have := hk4 .bool _ hr; simp [Kind.mult] at this; omega
+    · have hd : (Tok.stretchy k).toDT = .ok (.stretchy k) := by cases k <;> simp_all [Tok.toDT]
+      simp only [readTok, hd, resolve] at h
+      split at h; · cases h
+      rename_i r hres
+      split at hres; · cases hres
+      rename_i hmod
+      have hmod' : (s.len - s.pos) % k.mult = 0 := by simpa using hmod
+      have hq : 0 ≤ (s.len - s.pos) / k.mult := by
+        unfold Stream.len; cases k <;> simp [Kind.mult] <;> omega
+      obtain ⟨hr, hw⟩ := mkDtype_ok k _ r hq hres
+      split at h; · cases h
+      rename_i v' np' hrd
+      split at h; · cases h
+      cases h
+      obtain ⟨kk, hk1, hk2, hk3, hk4⟩ := readRDT_ok s.bits s.pos r v np h0 h1 hw hrd
+      refine ⟨kk, hk1, hk2, ?_, ?_⟩
+      · subst hr; exact hk3
+      · intro m hm'
+        have hbl := hk4 k _ hr
+        have : Tok.need (.stretchy k) (s.len - s.pos) = some (s.len - s.pos) := by cases k <;> simp_all [Tok.need]
+        rw [this] at hm'; cases hm'
+        rw [← hbl]
+        revert hmod'; cases k <;> simp [Kind.mult] <;> omega
+  | var vk =>
+    simp only [readTok, Tok.toDT, resolve] at h
+    split at h; · cases h
+    rename_i v' np' hrd
+    split at h; · cases h
+    cases h
+    obtain ⟨kk, hk1, hk2, hk3, _⟩ := readRDT_ok s.bits s.pos (.var vk) v np h0 h1 trivial hrd
+    exact ⟨kk, hk1, hk2, hk3, by intro m hm; simp [Tok.need] at hm⟩
+
+
+theorem readTok_var_err (s : Stream) (vk : VKind) (e : Err) (h : readTok s (.var vk) = .error e) : e = .read := by
+  simp only [readTok, Tok.toDT, resolve, readRDT] at h
+  split at h
+  · rename_i e' he; cases h; exact readVar_err _ _ _ _ he
+  · split at h
+    · cases h; rfl
+    · cases h
+
+theorem readTok_count_short (s : Stream) (n : Int) (hn : 0 ≤ n) (hs : n > s.len - s.pos) :
+    readTok s (.count n) = .error .read := by
+  simp only [readTok]
+  rw [if_neg (by omega), if_pos hs]
+
+theorem readTok_fixed_short (s : Stream) (k : Kind) (n : Nat) (hk : k ≠ .bool) (ha : allowed k n = true)
+    (hs : (n : Int) * k.mult > s.len - s.pos) :
+    readTok s (.fixed k n) = .error .read := by
+  simp only [readTok, Tok.toDT, mkDtype, ha, if_true, Except.map, resolve, readRDT, readFixed, if_neg hk]
+  unfold Stream.len at hs
+  rw [if_pos (by omega)]
+
+/-! ### readlist -/
+
+theorem readItems_ok (bits : Bits) (after : Int) (ds : List DT) (pos : Int) (vs : List Val) (fp : Int)
+    (hw : ∀ d ∈ ds, d.wf) (h0 : 0 ≤ pos) (h1 : pos ≤ bits.length)
+    (h : readItems bits after ds pos = .ok (vs, fp)) : pos ≤ fp ∧ fp ≤ bits.length := by
+  induction ds generalizing pos vs with
+  | nil => simp only [readItems] at h; cases h; omega
+  | cons d rest ih =>
+    simp only [readItems] at h
+    split at h; · cases h
+    rename_i r hres
+    split at h; · cases h
+    rename_i v np hrd
+    split at h; · cases h
+    rename_i vs' fp' hrest
+    cases h
+    have hrw := resolve_wf d _ r (hw d (List.mem_cons_self ..)) (by omega) hres
+    obtain ⟨k, hk1, hk2, _, _⟩ := readRDT_ok bits pos r v np h0 h1 hrw hrd
+    have := ih np vs' (fun d hd => hw d (List.mem_cons_of_mem _ hd)) (by omega) (by omega) hrest
+    omega
+
+theorem toDTs_wf (ts : List Tok) (ds : List DT) (hneg : negCountList ts = false) (h : toDTs ts = .ok ds) :
+    ∀ d ∈ ds, d.wf := by
+  induction ts generalizing ds with
+  | nil => simp only [toDTs] at h; cases h; intro d hd; cases hd
+  | cons t rest ih =>
+    simp only [toDTs] at h
+    split at h; · cases h
+    rename_i d hd
+    split at h; · cases h
+    rename_i ds' hds
+    cases h
+    simp only [negCountList, List.any_cons, Bool.or_eq_false_iff] at hneg
+    intro d' hd'
+    cases hd' with
+    | head => 
+      apply toDT_wf t _ _ hd
+      intro n hn; subst hn; simpa using hneg.1
+    | tail _ hm => exact ih ds' (by simpa [negCountList] using hneg.2) hds d' hm
+
+theorem readList_ok (bits : Bits) (pos : Int) (ts : List Tok) (vs : List Val) (fp : Int)
+    (hneg : negCountList ts = false) (h0 : 0 ≤ pos) (h1 : pos ≤ bits.length)
+    (h : readList bits pos ts = .ok (vs, fp)) : pos ≤ fp ∧ fp ≤ bits.length := by
+  unfold readList at h
+  split at h; · cases h
+  rename_i ds hds
+  split at h; · cases h
+  rename_i after hafter
+  exact readItems_ok bits after ds pos vs fp (toDTs_wf ts ds hneg hds) h0 h1 h
+
 end BM.C06
